@@ -2,6 +2,7 @@ package app_test
 
 import (
 	"bytes"
+	"strings"
 	"fmt"
 	"math/big"
 	"sort"
@@ -271,6 +272,12 @@ func (e *clEngine) swap() {
 	if err != nil {
 		o.Emit(line, "err", true)
 		o.Count("swap.err")
+		if msg := err.Error(); true {
+			if len(msg) > 70 {
+				msg = msg[:70]
+			}
+			o.Count("swap.err:" + strings.ReplaceAll(msg, " ", "_"))
+		}
 		if estOK && estErr == nil && !isBalanceErr(err) {
 			// an estimate succeeded for a swap that cannot execute: only legitimate when the trader lacks funds
 			o.Count("swap.err-but-estimated")
@@ -513,15 +520,23 @@ func (e *clEngine) oracleSolvency() {
 	sumInc := sdk.Coins{}
 	claim := map[uint64]sdk.Coins{}
 	for _, id := range ids {
-		c, err := k.GetClaimableSpreadRewards(e.ctx(), id)
+		var c, inc sdk.Coins
+		var err, err2 error
+		if !catch(func() { c, err = k.GetClaimableSpreadRewards(e.ctx(), id) }) {
+			o.Fail("solvency:claimable-query-panicked", fmt.Sprintf("%s pos %d", where, id))
+			continue
+		}
 		if err != nil {
 			o.Fail("solvency:claimable-query-failed", fmt.Sprintf("%s pos %d %v", where, id, err))
 			continue
 		}
 		claim[id] = c
 		sumFee = sumFee.Add(c...)
-		inc, _, err := k.GetClaimableIncentives(e.ctx(), id)
-		if err == nil {
+		if !catch(func() { inc, _, err2 = k.GetClaimableIncentives(e.ctx(), id) }) {
+			o.Fail("solvency:claimable-incentives-query-panicked", fmt.Sprintf("%s pos %d", where, id))
+			continue
+		}
+		if err2 == nil {
 			sumInc = sumInc.Add(inc...)
 		}
 	}
